@@ -237,4 +237,24 @@ def InLiteralRegion (w : Nat → Int) (a b : List Nat) : Prop :=
 instance (w : Nat → Int) (a b : List Nat) : Decidable (InLiteralRegion w a b) := by
   unfold InLiteralRegion; infer_instance
 
+/-! ### Hash-based SQL operators over stored rows
+
+`SELECT COUNT(*) FROM t WHERE a IN ('<y>', 'other', 'another')` (HashInTuple: one hash-table probe
+per row) and the number of groups of `GROUP BY a` (grouping-key hash), for the rows `rows` of a
+column with weight function `w`. Spec: both follow the column collation. Impl model: GROUP BY
+does; the literal list is hashed in the literal's collation (`wDefault`), as in `sqlRowImpl`. -/
+
+/-- representatives of the classes of "compares equal under `w`" -/
+def classes (w : Nat → Int) : List (List Nat) → List (List Nat)
+  | [] => []
+  | r :: rs =>
+    let cs := classes w rs
+    if cs.any (fun c => compareSpec w false r c == 0) then cs else r :: cs
+
+def sqlHashSpec (w : Nat → Int) (rows : List (List Nat)) (y : List Nat) : List String :=
+  [toString (rows.filter fun r => compareSpec w false r y == 0).length, toString (classes w rows).length]
+
+def sqlHashImpl (w : Nat → Int) (rows : List (List Nat)) (y : List Nat) : List String :=
+  [toString (rows.filter fun r => compare wDefault false r y == some 0).length, toString (classes w rows).length]
+
 end Gms.Collation
